@@ -164,7 +164,8 @@ def count_obligations(pid):
     for rel, tag in ((f"theories/Props/{pid}.v", None), ("theories/Proofs/GenObligations.v", "GenObligations"),
                      ("theories/Proofs/GenerateFacts.v", "GenerateFacts"), ("theories/Proofs/RandomGen.v", "RandomGen"),
                      ("theories/Proofs/GenerateTotal.v", "GenerateTotal"), ("theories/Proofs/RandomTotal.v", "RandomTotal"),
-                     ("theories/Proofs/NationalTotal.v", "NationalTotal")):
+                     ("theories/Proofs/NationalTotal.v", "NationalTotal"),
+                     ("theories/Proofs/RandomConform.v", "RandomConform")):
         p = os.path.join(COQ, rel)
         if not os.path.exists(p):
             continue
